@@ -1,6 +1,7 @@
 package world
 
 import (
+	"bytes"
 	"crypto/sha256"
 	"fmt"
 	"time"
@@ -243,6 +244,71 @@ func init() {
 				w.violate("C14", "opaque-changes-address", fmt.Sprintf("threshold with an unlock-conditions branch: address %v, with every branch opaque %v", a, b))
 				return
 			}
+		}
+		// legacy conditions: the address is their Merkle root, whatever the keys' algorithms and lengths
+		{
+			uc := types.UnlockConditions{Timelock: uint64(t.Choose(3)), SignaturesRequired: uint64(t.Range(0, 2))}
+			for i := 0; i < t.Range(0, 3); i++ {
+				key := make([]byte, pick(t, 32, 32, 31, 33, 0, 64))
+				copy(key, sim.HashBytes("c14-uk", uint64(i), uint64(t.Choose(50)), len(key)))
+				uc.PublicKeys = append(uc.PublicKeys, types.UnlockKey{Algorithm: pick(t, types.SpecifierEd25519, types.NewSpecifier("blank"), types.NewSpecifier("ed448"), types.Specifier{}, types.SpecifierEntropy), Key: key})
+			}
+			pol := types.SpendPolicy{Type: types.PolicyTypeUnlockConditions(uc)}
+			if a, b, c := pol.Address(), uc.UnlockHash(), ref.UnlockHash(uc); a != c || b != c {
+				w.violate("C14", "unlock-conditions-address", fmt.Sprintf("legacy conditions %v: policy address %v, UnlockHash %v, Merkle root by definition %v", pol, a, b, c))
+				return
+			}
+			// inside a threshold the conditions count through their opaque form
+			if a, b := types.PolicyThreshold(1, []types.SpendPolicy{pol}).Address(), types.PolicyThreshold(1, []types.SpendPolicy{{Type: types.PolicyTypeOpaque(ref.UnlockHash(uc))}}).Address(); a != b {
+				w.violate("C14", "opaque-changes-address", fmt.Sprintf("threshold over %v has address %v, over the opaque form of the conditions' Merkle root %v", pol, a, b))
+				return
+			}
+			w.stats.Inc("probe.P2-uc-address")
+		}
+		// the encoded form: nesting up to the protocol's depth limit, through the first or a later branch
+		{
+			depth := pick(t, 31, 32, 33, 34, 5)
+			inner := pick(t, types.PolicyAbove(0), types.AnyoneCanSpend(), types.PolicyThreshold(0, []types.SpendPolicy{}))
+			via := t.Choose(3)
+			p := inner
+			for i := 0; i < depth; i++ {
+				switch via {
+				case 0:
+					p = types.PolicyThreshold(1, []types.SpendPolicy{p})
+				case 1:
+					p = types.PolicyThreshold(1, []types.SpendPolicy{types.PolicyOpaque(types.PolicyAbove(uint64(i + 1))), p})
+				default:
+					p = types.PolicyThreshold(1, []types.SpendPolicy{types.PolicyOpaque(types.PolicyAbove(7)), types.PolicyOpaque(types.PolicyAbove(8)), p})
+				}
+			}
+			enc := encAny(p)
+			var back types.SpendPolicy
+			d := types.NewBufDecoder(enc)
+			if pn := guard(func() { back.DecodeFrom(d) }); pn != "" {
+				w.violate("C10", "decode-policy-panic", pn)
+				return
+			}
+			want := ref.PolicyDepthOK(p)
+			if (d.Err() == nil) != want {
+				w.violate("C14", "decode-depth-limit", fmt.Sprintf("policy nested %d deep (through branch %d, innermost %v): decoding its encoding returned %v, the nesting limit gives ok=%v", depth, via, inner, d.Err(), want))
+				return
+			}
+			if want && !bytes.Equal(encAny(back), enc) {
+				w.violate("C11", "policy-roundtrip", fmt.Sprintf("policy nested %d deep does not re-encode to the same bytes", depth))
+				return
+			}
+			if want {
+				var verr error
+				if pn := guard(func() { verr = back.Verify(c.height, c.median, types.Hash256{}, nil, nil) }); pn != "" {
+					w.violate("C10", "policy-verify-panic", pn)
+					return
+				}
+				if (verr == nil) != ref.PolicySatisfied(p, c.height, c.median, types.Hash256{}, nil, nil) {
+					w.violate("C14", "verify-disagrees", fmt.Sprintf("policy nested %d deep (innermost %v): Verify returned %v", depth, inner, verr))
+					return
+				}
+			}
+			w.stats.Inc("probe.P2-depth-limit")
 		}
 		// ---- fund an output guarded by the policy
 		fund := types.V2Transaction{SiacoinInputs: []types.V2SiacoinInput{{Parent: funder.Copy()}}, SiacoinOutputs: []types.SiacoinOutput{{Value: funder.SiacoinOutput.Value, Address: addr}}}
